@@ -211,7 +211,7 @@ func judgeC02(v *spec.View, in, out string, dom bool) (sig, what string) {
 }
 
 var c02Attrs = []string{
-	` id=abc`, ` id=123`, ` id="a b"`, ` id=""`, ` id`, ` ID=abc`, ` id='abc'`, ` id="&#97;bc"`, ` id="abc&#10;x"`,
+	` id=abc`, ` id=123`, ` id="a b"`, ` id=""`, ` id`, ` ID=abc`, ` id='abc'`, ` id="&#97;bc"`, ` id="&amp;#97;bc"`, ` id="abc&#10;x"`,
 	` title=t`, ` title="<x>"`, ` onclick=x`, ` name=n`, ` name=7`,
 	` data-x=1`, ` data-xmlfoo=1`, ` data-x;=1`, ` data-data-;x=1`, ` data-a"b<c=1`, ` data-=1`, ` data-data-xmlq=1`, ` xdata-y=1`, ` aria-data-x=1`,
 	` style="color:red"`, ` href="javascript:x"`, ` href=/ok`, ` lang=en`,
@@ -230,6 +230,8 @@ func c02Specs(c *run.Ctx) []built {
 		{attrsPat([]string{"id"}, `^[a-z]+$`, reMy)},
 		{attrsGlob([]string{"id"}, "")},
 		{attrsGlob([]string{"id"}, `^[a-z]+$`)},
+		{C{Op: "AllowAttrs", Names: []string{"id"}, Re: `^[a-z]+$`, NoAttrs: true, Scope: "on", On: []string{"my-x", "a"}}},
+		{C{Op: "AllowAttrs", Names: []string{"id"}, Re: `^[a-z]+$`, NoAttrs: true, Scope: "matching", OnRe: reMy}},
 	}
 	r2s := []r{
 		nil,
